@@ -16,6 +16,7 @@ def run(ctx):
                     nscripts=400 if quick else 2500,
                     configs=[(1, 1), (2, 1), (2, 2, 12)] if quick else [(1, 1), (2, 1), (1, 2), (3, 1), (2, 2, 40)],
                     trivial_rule=nontrivial, many=(1, 3000) if quick else (3, 3400))
+    fc.run_micro(ctx, quick)
     ctx.cov["rule"] = ("scripts of 8-45 FEB calls by 2-8 tasks and 0-2 non-qthread pthreads on 1-3 words, generated against the model's "
                        "current state (would-block / state-flipping / neutral operations, every dest/src aliasing mode, _const and _nb "
                        "spellings, lock/unlock); plus 'many words' scripts on 1x1 (3000-3800 consecutive words emptied at the same time, each probed, "
@@ -24,8 +25,8 @@ def run(ctx):
                        "non-trivial = at least one call blocked and at least one waiter was released")
     ctx.assumptions += ["op-atomic granularity: each API call is one step (the record lock makes it so; lock discipline itself is "
                         "exercised on 2x1, 2x2, 1x2, 3x1 configurations but not proved)",
-                        "micro-step note (DESIGN C01 Extended): writeF/writeFF/readFF/readFF_nb touch *dest with no lock held when "
-                        "the record is absent; not modelled"]
+                        "micro-step layer (Feb/Micro.v): two tasks on one word; replayed on the real code with a targeted baton (the first "
+                        "call is held after its k-th qt_hash_unlock, 3 shepherds x 1 worker); plain word accesses are not interposed"]
 
 
 def replay(ctx, path):
